@@ -195,6 +195,38 @@ def run_shard(spec):
                 pass
             if any(v < 0 for v in vals):
                 viol.append(_viol("amount-decoded-as-negative", "8-byte amount %d decodes to %s" % ((1 << 64) - k, vals), {"kind": "edges"}))
+    # the schedule AS THE VALIDATOR ENFORCES IT: at every era boundary (and the heights next to it, and random heights) a
+    # reward-only block claiming exactly subsidy(h) must pass the reward check and one claiming subsidy(h)+1 must not
+    enforced = 0
+    probe_heights = sorted({e * ref.HALVING_INTERVAL + d for e in list(range(0, 34)) + [62, 63, 64, 65, 100, 4090] for d in (-1, 0, 1)
+                            if 0 < e * ref.HALVING_INTERVAL + d <= 0xFFFFFFFF}
+                           | {1, 2, 0xFFFFFFFF} | {rng.randrange(1, 1 << 32) for _ in range(300)})
+    for h in probe_heights:
+        for delta in (0, 1):
+            cb = ref.RTx([(ref.ZERO32, 0, (ref.SIG_CB, h, b""))], [(ref.subsidy(h) + delta, key)])
+            try:
+                real_cb = dt.Transaction.deserialize(cb.enc())
+            except Exception:
+                continue
+            prev = dt.Block(dt.BlockHeader(dt.BlockSummary(h - 1, b"\x22" * 32, b"\x00" * 32, 5, b"\xff" * 32, 0),
+                                           dt.PowEvidence(b"\x00" * 32, b"\x00" * 32, b"\x00" * 32)), [])
+            at = b"\x11" * 32
+            blk = dt.Block(dt.BlockHeader(dt.BlockSummary(h, at, b"\x00" * 32, 9, b"\xff" * 32, 0),
+                                          dt.PowEvidence(b"\x00" * 32, b"\x00" * 32, b"\x00" * 32)), [real_cb])
+            cs = CoinState(immutables.Map({at: prev}), immutables.Map({at: immutables.Map()}), immutables.Map(), immutables.Map(), at)
+            n += 1
+            enforced += 1
+            try:
+                consensus.validate_coinbase_transaction_in_coinstate(real_cb, blk, cs)
+                ok = True
+            except Exception:
+                ok = False
+            if ok != (delta == 0):
+                viol.append(_viol("validator-enforces-another-schedule", "height %d: a reward of subsidy(%d)%s = %d is %s by the reward "
+                                  "check" % (h, h, "+1" if delta else "", ref.subsidy(h) + delta, "accepted" if ok else "refused"),
+                                  {"kind": "edges"}))
+        if len(viol) > 8:
+            break
     # docs/params.md
     import os
     doc = open(os.path.join(env.REPO, "docs", "params.md")).read()
@@ -210,7 +242,7 @@ def run_shard(spec):
         if not re.search(pat, doc):
             viol.append(_viol("documentation-changed", "docs/params.md no longer states: %s" % name, {"kind": "edges"}))
     return {"evaluations": n, "distinct": len(heights), "violations": viol,
-            "counters": {"edge_heights": len(heights), "history_lane_queries": repeats, "amount_limit_probe": {str(k): int(v) for k, v in limit_probe.items()},
+            "counters": {"edge_heights": len(heights), "history_lane_queries": repeats, "reward_checks_at_probe_heights": enforced, "amount_limit_probe": {str(k): int(v) for k, v in limit_probe.items()},
                          "constants_checked": len(consts)},
             "samples": [{"height": h, "subsidy": f(h)} for h in (0, 1_049_999, 1_050_000, 31_499_999, 31_500_000, (1 << 32) - 1)]}
 
@@ -224,8 +256,10 @@ def finalize(m, tier):
     return {
         "rule": "the real get_block_subsidy is called on every height in [0, 31,500,000) (all heights with non-zero "
                 "subsidy; distinct = heights whose subsidy is non-zero, all different inputs), plus every era boundary "
-                "+-1 up to 2^32 and random heights up to 2^64; sum accumulated from those calls",
+                "+-1 up to 2^32 and random heights up to 2^64; sum accumulated from those calls; the reward check itself probed "
+                "with subsidy(h) and subsidy(h)+1 at every era boundary +-1 and random heights",
         "floors": [("heights_called", c.get("heights_called", 0), NONZERO_HEIGHTS),
-                   ("nonzero_heights", c.get("nonzero_heights", 0), NONZERO_HEIGHTS)],
+                   ("nonzero_heights", c.get("nonzero_heights", 0), NONZERO_HEIGHTS),
+                   ("reward_checks_at_probe_heights", c.get("reward_checks_at_probe_heights", 0), 500)],
         "extra": {"sum_of_subsidies_observed": total},
     }
